@@ -7,6 +7,17 @@
    Cover = TRUE (with VIEW GView) emits instead, for every transition of the reachable
    state graph, one history: a shortest path to the source state followed by the step.
 
+   Burst = K > 0 emits transaction bursts instead: a committed start graph (one of Shapes,
+   logged as a first record "init" that the harness builds with direct defines), Begin,
+   1..K operations inside the transaction (define, one-to-many define, delete, resource
+   delete ... on overlapping edges, no-op calls included), then Commit or Abort. The
+   harness queries parents / children / multi-hop levels inside the open transaction and
+   in the committed view after every step, i.e. also after the commit / abort.
+
+   VIEW GViewFull keeps the whole write overlay and the ghost `ever` (what the open
+   transaction has ever set / ever deleted) in the state, so that the transition cover
+   distinguishes e.g. "deleted" from "rewritten, then deleted" and continues from both.
+
    Canon = TRUE enumerates histories up to renaming of resources: a step may mention a
    resource not mentioned before only if it is the smallest such one (all resources are
    interchangeable in Ontology.tla when InitRes = N). The harness re-introduces the
@@ -16,9 +27,12 @@ CONSTANTS Depth, Canon,
           EmitOneIn, \* simulation: TLC evaluates invariants on every successor it generates,
                      \* not only the chosen one; print each full-length history with
                      \* probability 1/EmitOneIn (1 = always)
-          Cover   \* TRUE: emit the history of every transition of the state graph (use VIEW GView)
-VARIABLES hist, k      \* k: resources 1..k have been mentioned
-gvars == <<vars, hist, k>>
+          Cover,  \* TRUE: emit the history of every transition of the state graph (use VIEW GView)
+          Burst,  \* 0, or the largest number of operations inside the one transaction
+          Shapes  \* Burst > 0: names of the committed start graphs
+VARIABLES hist, k,     \* k: resources 1..k have been mentioned
+          ever         \* ghost [Txs -> [s, d]]: edges the open transaction ever set / deleted
+gvars == <<vars, hist, k, ever>>
 
 Max(a, b) == IF a > b THEN a ELSE b
 MaxOf(S) == IF S = {} THEN 0 ELSE CHOOSE x \in S : \A y \in S : y <= x
@@ -44,16 +58,36 @@ RecS(a, w, x, ty, y, S) ==
    res |-> res', edges |-> edges', otx |-> o,
    vres |-> IF o = "none" THEN res' ELSE ((res' \ tx'[o].delR) \cup tx'[o].setR),
    vedges |-> IF o = "none" THEN edges' ELSE ((edges' \ tx'[o].delE) \cup tx'[o].setE)]
+NoEver == [s |-> {}, d |-> {}]
 Log(a, w, x, ty, y, S, kk) == /\ hist' = Append(hist, RecS(a, w, x, ty, y, S)) /\ k' = kk
+                             /\ ever' = [t \in Txs |->
+                                   IF ~tx'[t].open THEN NoEver
+                                   ELSE LET old == IF tx[t].open THEN ever[t] ELSE NoEver
+                                        IN [s |-> old.s \cup tx'[t].setE, d |-> old.d \cup tx'[t].delE]]
                              /\ (~Cover \/ PrintT(<<"HIST", ToJson(hist')>>))
 
+\* burst phases: init record, Begin, 1..Burst operations, Commit | Abort, stop
+BurstOK(kind) ==
+  \/ Burst = 0
+  \/ kind = "begin" /\ Len(hist) = 1
+  \/ kind = "op" /\ OpenTxs # {} /\ Len(hist) - 2 < Burst
+  \/ kind = "close" /\ Len(hist) >= 3
+ShapeEdges(sh) ==
+  CASE sh = "empty" -> {}
+    [] sh = "edge" -> {<<1, "p", 2>>}
+    [] sh = "chain" -> {<<1, "p", 2>>, <<2, "p", 3>>}
+    [] sh = "fan" -> {<<1, "p", 2>>, <<1, "p", 3>>}
+    [] sh = "vee" -> {<<1, "p", 3>>, <<2, "p", 3>>}
+    [] sh = "tri" -> {<<1, "p", 2>>, <<2, "p", 3>>, <<1, "p", 3>>}
+InitRec(E0) == [a |-> "init", w |-> "db", x |-> 0, ty |-> "", y |-> 0, s |-> <<>>, cls |-> "ok", rc |-> <<>>,
+                res |-> 1..InitRes, edges |-> E0, otx |-> "none", vres |-> 1..InitRes, vedges |-> E0]
 GNext ==
   /\ Len(hist) < Depth
-  /\ \/ \E t \in Txs : \/ Begin(t) /\ Log("begin", t, 0, "", 0, {}, k)
-                       \/ Commit(t) /\ Log("commit", t, 0, "", 0, {}, k)
-                       \/ Abort(t) /\ Log("abort", t, 0, "", 0, {}, k)
-     \/ Reopen /\ Log("reopen", "db", 0, "", 0, {}, k)
-     \/ \E w \in Writers :
+  /\ \/ \E t \in Txs : \/ BurstOK("begin") /\ Begin(t) /\ Log("begin", t, 0, "", 0, {}, k)
+                       \/ BurstOK("close") /\ Commit(t) /\ Log("commit", t, 0, "", 0, {}, k)
+                       \/ BurstOK("close") /\ Abort(t) /\ Log("abort", t, 0, "", 0, {}, k)
+     \/ Burst = 0 /\ Reopen /\ Log("reopen", "db", 0, "", 0, {}, k)
+     \/ \E w \in Writers : BurstOK("op") /\
           \/ \E r \in Res : C1(r) /\
                \/ DefineResource(w, r) /\ Log("defres", w, r, "", 0, {}, Max(k, r))
                \/ DeleteResource(w, r) /\ Log("delres", w, r, "", 0, {}, Max(k, r))
@@ -68,12 +102,17 @@ GNext ==
           \/ \E r \in Res, ty \in RelType : C1(r) /\
                \/ DeleteOutOfType(w, r, ty) /\ Log("delout", w, r, ty, 0, {}, Max(k, r))
                \/ DeleteInOfType(w, r, ty) /\ Log("delin", w, r, ty, 0, {}, Max(k, r))
-GInit == Init /\ hist = <<>> /\ k = 0
+GInit == /\ k = 0 /\ ever = [t \in Txs |-> NoEver]
+         /\ IF Burst = 0 THEN Init /\ hist = <<>>
+            ELSE \E sh \in Shapes : InitWith(ShapeEdges(sh)) /\ hist = <<InitRec(ShapeEdges(sh))>>
 GSpec == GInit /\ [][GNext]_gvars
-Emit == \/ Cover \/ Len(hist) # Depth
+Complete == IF Burst > 0 THEN Len(hist) >= 4 /\ OpenTxs = {} ELSE Len(hist) = Depth
+Emit == \/ Cover \/ ~Complete
         \/ (EmitOneIn > 1 /\ RandomElement(1..EmitOneIn) # 1)
         \/ PrintT(<<"HIST", ToJson(hist)>>)
 \* transition cover: with this VIEW every abstract state is expanded once, from the
 \* first (shortest) history that reached it, and Log prints one history per transition
 GView == <<SeqView, k>>
+\* the same with the whole overlay and the ever-set / ever-deleted ghost kept apart
+GViewFull == <<vars, k, ever>>
 ====
